@@ -30,6 +30,8 @@ type stallCase struct {
 
 func (x *runner) stallProbes() {
 	x.twoSessionDeadlock()
+	x.writeDeadlineProbe()
+	x.layeredDeadlineProbe()
 	for _, w := range []string{"close", "senderror", "shutdown"} {
 		for _, n := range []string{"serve-read", "serve-top", "setdeadline", "state"} {
 			if w != "close" && strings.HasPrefix(n, "serve-") {
@@ -309,3 +311,135 @@ type plainHdrConn struct {
 }
 
 func (h *plainHdrConn) Read(b []byte) (int, error) { return h.r.Read(b) }
+
+// ---- the transport's deadlines (oracle only) ----
+
+// writeDeadlineProbe: a transmit call whose context is cancelled while it is
+// blocked in a write to a peer that does not read. The library interrupts the
+// write by expiring the connection's write deadline; it must clear it again,
+// or the later Close marks the stream closed, fails with a time-out and the
+// closing tag never reaches the wire.
+func (x *runner) writeDeadlineProbe() {
+	desc := &Scenario{Mode: "stall", Note: "Send with a context cancelled while blocked in its write; then Close"}
+	progress(desc)
+	x.res.Count("stall/write-deadline", true, "mode/stall")
+	fail := func(key, what string) { x.res.Fail(key, what, desc) }
+	xmpp.VerifSetHook(nil)
+	rg, err := newRig(true, false, false)
+	if err != nil {
+		fail("C10/setup", err.Error())
+		return
+	}
+	defer rg.close()
+	rg.watch.Store(true)
+	for len(rg.writeEntered) > 0 {
+		<-rg.writeEntered
+	}
+	rg.pause()
+	ctx, cancel := context.WithCancel(context.Background())
+	sent := make(chan error, 1)
+	go func() { sent <- rg.s.Send(ctx, msgReader("w1", "")) }()
+	select {
+	case <-rg.writeEntered:
+	case <-time.After(watchdog):
+		cancel()
+		fail("C10/stall/setup", "Send did not enter its write")
+		return
+	}
+	cancel() // the write is pending: the library expires the write deadline to get out of it
+	var sendErr error
+	select {
+	case sendErr = <-sent:
+	case <-time.After(watchdog):
+		fail("C10/send/stuck", "Send did not return after its context was cancelled while it was blocked in a write")
+		return
+	}
+	rg.watch.Store(false)
+	rg.resume()
+	// the goroutine that expired the deadline clears it right after; give it
+	// (generously) time, observing the deadline itself: a zero-length write
+	// fails at once while the deadline is expired
+	cleared := false
+	for deadline := time.Now().Add(3 * time.Second); time.Now().Before(deadline); time.Sleep(2 * time.Millisecond) {
+		if _, err := rg.sess.Write(nil); err == nil {
+			cleared = true
+			break
+		}
+	}
+	rg.watch.Store(true)
+	cerr := rg.s.Close()
+	rg.watch.Store(false)
+	rg.wmu.Lock()
+	attempts := rg.tagAttempts
+	rg.wmu.Unlock()
+	rg.sess.SetWriteDeadline(time.Time{})
+	wire, _ := rg.finish()
+	items, _, _ := parseItems(wire)
+	tags := 0
+	for _, it := range items {
+		if it.Kind == "close" {
+			tags++
+		}
+	}
+	if !cleared || cerr != nil || tags != 1 {
+		fail("C10/close/no-tag:write-deadline-left-expired", fmt.Sprintf("Send(ctx) was blocked in its write (the peer was not reading) when ctx was cancelled and returned %v; the peer reads again; the connection's write deadline was cleared afterwards: %v; Close returned %v; closing tags on the wire: %d (write attempts: %d); OutputStreamClosed: %v", sendErr, cleared, cerr, tags, attempts, rg.s.State()&xmpp.OutputStreamClosed != 0))
+	}
+}
+
+// layeredNegotiator first puts a plain io.ReadWriter (no deadline methods: what
+// a compression-like feature returns) over the connection, then reports Ready.
+func layeredNegotiator(ns string, layer func(net.Conn) io.ReadWriter) xmpp.Negotiator {
+	return func(ctx context.Context, in, out *stream.Info, s *xmpp.Session, data interface{}) (xmpp.SessionState, io.ReadWriter, interface{}, error) {
+		if data == nil {
+			return 0, layer(s.Conn()), "layered", nil
+		}
+		rc := s.TokenReader()
+		_, err := rc.Token()
+		rc.Close()
+		in.XMLNS, out.XMLNS = ns, ns
+		return xmpp.Ready, nil, data, err
+	}
+}
+
+// layeredDeadlineProbe: SetCloseDeadline on a session whose connection is a
+// wrapper without deadline methods over a net.Conn must still arm the read
+// deadline of the underlying connection: with a silent peer Serve returns the
+// deadline error.
+func (x *runner) layeredDeadlineProbe() {
+	desc := &Scenario{Mode: "stall", Note: "SetCloseDeadline on a session whose connection is a plain io.ReadWriter layered over a net.Conn; the peer stays silent"}
+	progress(desc)
+	x.res.Count("stall/layered-deadline", true, "mode/stall")
+	fail := func(key, what string) { x.res.Fail(key, what, desc) }
+	xmpp.VerifSetHook(nil)
+	a, b := net.Pipe()
+	defer a.Close()
+	defer b.Close()
+	go io.Copy(io.Discard, b)
+	hdr := `<stream:stream id="123" version="1.0" xmlns="` + nsClient + `" xmlns:stream="` + stream.NS + `">`
+	base := &plainHdrConn{Conn: a, r: io.MultiReader(strings.NewReader(hdr), a)}
+	s, err := xmpp.NewSession(context.Background(), jid.MustParse("example.net"), jid.MustParse("me@example.net"), base, 0,
+		layeredNegotiator(nsClient, func(c net.Conn) io.ReadWriter { return plainRW{Reader: c, Writer: c} }))
+	if err != nil {
+		fail("C10/setup", err.Error())
+		return
+	}
+	if _, isNet := s.Conn().(*plainHdrConn); isNet {
+		fail("C10/stall/setup", "the negotiator's layer was not installed")
+		return
+	}
+	done := make(chan error, 1)
+	go func() { done <- s.Serve(nil) }()
+	time.Sleep(5 * time.Millisecond)
+	if err := s.SetCloseDeadline(time.Now().Add(50 * time.Millisecond)); err != nil {
+		fail("C10/Serve/deadline-not-armed", fmt.Sprintf("SetCloseDeadline returned %v on a layered connection", err))
+	}
+	s.Close()
+	select {
+	case err := <-done:
+		if c := classify(err); c != "ETimeout" && c != "ECtxDeadline" {
+			fail("C10/Serve/deadline-returns-"+c, fmt.Sprintf("the close deadline passed with a silent peer and Serve returned %v", err))
+		}
+	case <-time.After(3 * time.Second):
+		fail("C10/Serve/deadline-not-armed", "SetCloseDeadline(50 ms from now) on a session whose connection is a plain io.ReadWriter layered over a net.Conn; the peer stays silent; 3 s later Serve is still blocked in its read: the read deadline of the underlying connection was never set")
+	}
+}
